@@ -156,6 +156,21 @@ def targets(ctx):
             if not (isinstance(v4, (datetime, timedelta)) and v4 == py):
                 out.append(("json_roundtrip", f"{js!r} -> {v4!r} want {py!r}"))
 
+        # input with a UTC offset other than Z (RFC 3339; accepted by proto3 JSON parsers): the same instant
+        if kind == "ts" and off and isinstance(js, str):
+            text = py.isoformat()
+            dd = {key: [text] if pos == "repeated" else ({"7": text} if pos == "map" else text)}
+            m5 = guard("from_dict_offset", cls().from_dict, dd)
+            v5 = getattr(m5, field)
+            if pos == "repeated":
+                v5 = v5[0] if len(v5) == 1 else v5
+            elif pos == "map":
+                v5 = v5.get(7, "missing") if isinstance(v5, dict) else v5
+            if not (isinstance(v5, datetime) and v5 == py):
+                out.append(("json_offset_input", f"{text!r} -> {v5!r} want {py!r}"))
+            elif guard("bytes_offset", bytes, m5) != b:
+                out.append(("json_offset_input", f"{text!r} encodes as {bytes(m5).hex()} want {b.hex()}"))
+
     def vclass(kind, us, off):
         parts = [kind]
         if us < 0:
